@@ -257,7 +257,7 @@ def run(P, R):
     fm = factmap(u)
     push = [c for c in own_nodes(u.node) if isinstance(c, ast.Call) and call_text(c).endswith('.push_notification')]
     ok = len(push) == 1 and {tuple(f) for f in fm.at(push[0])} == {
-        ('self.status.identifier == self.local_identifier', False), ('self.status.has_active_state()', True)} and \
+        ('self.local_identifier == self.status.identifier', False), ('self.status.has_active_state()', True)} and \
         any(ast.unparse(x) == 'NotificationHeaders.INSTANCE_FAILURE.value' for x in own_nodes(u.node))
     R.check(r7, ok, 'a failed proxy of an active remote peer posts INSTANCE_FAILURE', 'bus|handle_exception', u.loc(),
             'handle_exception does not post INSTANCE_FAILURE under exactly (remote, active state)')
